@@ -51,6 +51,14 @@ func pkgVarRanges() [][2]uintptr {
 	return rs
 }
 
+// keptBytes holds results of ExecuteBytes without copying them; String() is called when the execution is judged
+type keptBytes struct {
+	b1, b2     []byte
+	e1, e2     bool
+}
+
+func (k keptBytes) String() string { return fmt.Sprintf("%q %v | %q %v", string(k.b1), k.e1, string(k.b2), k.e2) }
+
 type world struct {
 	set    *pongo2.TemplateSet
 	loader *px.MemLoader
@@ -93,6 +101,14 @@ func (w *world) op(name string) func() any {
 			var b bytes.Buffer
 			err := w.tpl.ExecuteWriterUnbuffered(c04.MkCtx(i), &b)
 			return fmt.Sprintf("%q %v", b.String(), err != nil)
+		}
+	case strings.HasPrefix(name, "execbytes:"):
+		i := int(name[10] - '0')
+		return func() any {
+			// the slice is kept (not copied): it is looked at only after every thread has finished
+			b1, err1 := w.tpl.ExecuteBytes(c04.MkCtx(i))
+			b2, err2 := w.tpl.ExecuteBytes(c04.MkCtx(i))
+			return keptBytes{b1, b2, err1 != nil, err2 != nil}
 		}
 	case name == "compile-string":
 		return func() any {
@@ -186,7 +202,7 @@ func run(r *eng.Runner) {
 	r.Group("exec-exec", "c05.case", fmt.Sprintf("two threads executing ONE compiled template (every C04 program, options off and TrimBlocks+LStripBlocks) with different contexts (also the failing one), every schedule up to %d preemption(s); stores into memory reachable from the template/set/package variables are scheduling points, loader I/O too", bound))
 	for i, n := range names {
 		for _, trim := range []bool{false, true} {
-			for _, ops := range [][]string{{"exec:0", "exec:1"}, {"exec:0", "exec:2"}, {"execwriter:1", "unbuffered:0"}} {
+			for _, ops := range [][]string{{"exec:0", "exec:1"}, {"exec:0", "exec:2"}, {"execwriter:1", "unbuffered:0"}, {"execbytes:0", "execbytes:1"}} {
 				r.Do(&Case{Files: files[i], Trim: trim, Ops: ops, Bound: bound, MaxSched: maxS, Label: "exec-exec:" + n})
 			}
 		}
